@@ -1,0 +1,20 @@
+#ifndef CGREEN_VERIF_HOOKS_HEADER
+#define CGREEN_VERIF_HOOKS_HEADER
+
+/* Observation points for external verification harnesses. Compiled to nothing
+   unless CGREEN_VERIF is defined. */
+
+#ifdef CGREEN_VERIF
+#ifdef __cplusplus
+extern "C" {
+#endif
+extern void (*cgreen_verif_observer)(const char *point);
+#ifdef __cplusplus
+}
+#endif
+#define CGREEN_VERIF_POINT(name) do { if (cgreen_verif_observer) (*cgreen_verif_observer)(name); } while (0)
+#else
+#define CGREEN_VERIF_POINT(name) do { } while (0)
+#endif
+
+#endif
